@@ -774,7 +774,8 @@ def check_C11(sc, v, tier, seed, replay):
     for i, (nue, mnc_len, imsi_len) in enumerate(shapes):
         scn, text = online.make_scenario(rnd, {"reg": nue, "pdu": 0, "svc": 0, "rel": 0, "dereg": nue},
                                          opts={"det": i + seed % 3, "mnc_len": mnc_len, "imsi_len": imsi_len, "free_msin": i % 2 == 1,
-                                               "other_plmn": [1, 2, 0][i % 3]})      # the first run: another PLMN in front of the gNB's
+                                               "other_plmn": [1, 2, 0][i % 3],       # the first run: another PLMN in front of the gNB's
+                                               "msin_has_plmn": i % 2 == 0})
         jobs.append(("ident%02d" % i, scn, text))
     runs = online.run_many(sc, emu, jobs, parallel=8)
     _online_collect(v, runs, "C11", sc)
